@@ -119,8 +119,41 @@ def replay_file(spec, path):
     with open(path) as f:
         blob = json.load(f)
     state = ShardState(spec.prop, 'quick')
-    bad = spec.replay_case(blob['case'], state)
+    if blob.get('kind') == 'sequence':
+        # several cases run one after the other in this one process (history-dependent failure)
+        bad = []
+        for case in blob['cases']:
+            bad += spec.replay_case(case, state)
+    else:
+        bad = spec.replay_case(blob['case'], state)
     return blob, state, bad
+
+
+def try_sequences(prop, cands):
+    """a failure that does not reproduce alone: replay it after the cases that preceded it in its shard,
+    shortest suffix first, each attempt in a fresh interpreter"""
+    import subprocess
+    for f in cands:
+        if len(f) < 3 or not f[2]:
+            continue
+        case, bad0, ctx = f[0], f[1], f[2]
+        for k in range(1, len(ctx) + 1):
+            seq = ctx[-k:] + [case]
+            d = os.path.join(OUT, 'replays', prop)
+            os.makedirs(d, exist_ok=True)
+            blob = json.dumps(seq, sort_keys=True, default=str)
+            path = os.path.join(d, 'seq_' + hashlib.sha1(blob.encode()).hexdigest()[:12] + '.json')
+            with open(path, 'w') as fh:
+                json.dump({'property': prop, 'kind': 'sequence', 'cases': seq,
+                           'note': 'the last case only fails after the preceding ones have run in the same process',
+                           'violations': [{k_: v for k_, v in x.items() if k_ in ('prop', 'part', 'msg', 'sig')} for x in bad0[:6]]},
+                          fh, indent=1, default=str)
+            r = subprocess.run([sys.executable, '-m', 'vt.check', prop, '--replay', path], capture_output=True, text=True,
+                               env=dict(os.environ, VT_NO_REEXEC='1'))
+            if r.returncode == 1:
+                return path, bad0
+            os.remove(path)
+    return None
 
 
 def main(argv=None):
@@ -211,7 +244,8 @@ def main(argv=None):
         from .engine import ShardState, smallest_failure
         cands = sorted(agg['failures'], key=lambda f: len(json.dumps(f[0], default=str)))
         confirmed = None
-        for case, bad0 in cands[:5]:
+        for cand in cands[:5]:
+            case, bad0 = cand[0], cand[1]
             st_ = ShardState(prop, a.tier, known=known)
             try:
                 bad = spec.replay_case(case, st_)
@@ -222,10 +256,14 @@ def main(argv=None):
                 confirmed = (case, bad)
                 break
         if confirmed is None:
-            print(f"harness error: {len(agg['failures'])} failing cases did not reproduce outside Hypothesis", file=sys.stderr)
-            return 2
-        path = write_replay(prop, confirmed[0], confirmed[1])
-        violations.append((path, confirmed[1]))
+            seq = try_sequences(prop, cands[:4])
+            if seq is None:
+                print(f"harness error: {len(agg['failures'])} failing cases did not reproduce outside Hypothesis", file=sys.stderr)
+                return 2
+            violations.append(seq)
+        else:
+            path = write_replay(prop, confirmed[0], confirmed[1])
+            violations.append((path, confirmed[1]))
 
     for path, bad in violations:
         for v in bad[:6]:
